@@ -1,10 +1,59 @@
 package dagaz
 
-import "sync"
+import (
+	"sync"
+
+	"github.com/aukilabs/hagall-common/messages/dagazpb"
+)
 
 type State struct {
 	// mutex serialises every access to SpatialPartition, which is shared by all
-	// participants of a session.
+	// participants of a session. It is always released with defer, so that a
+	// panicking query cannot leave the session's partition locked.
 	mutex            sync.Mutex
 	SpatialPartition SpatialPartition
+}
+
+func (s *State) insertQuads(quads []Quad) {
+	s.mutex.Lock()
+	defer s.mutex.Unlock()
+
+	for _, quad := range quads {
+		s.SpatialPartition.InsertQuad(quad)
+	}
+}
+
+func (s *State) groundPlane(ray Ray) *dagazpb.Quad {
+	s.mutex.Lock()
+	defer s.mutex.Unlock()
+
+	quadHit, _ := s.SpatialPartition.IntersectQuad(ray)
+	if quadHit == nil {
+		// create an invalid quad to be able to have a response:
+		quadHit = &Quad{
+			Center:  Vector3f{0, 0, 0},
+			Extents: Vector3f{0, 0, 0},
+			Normal:  Vector3f{0, 0, 0},
+		}
+	}
+	return quadHit.ToProtobuf()
+}
+
+func (s *State) region(min Vector3f, max Vector3f) []*dagazpb.Quad {
+	s.mutex.Lock()
+	defer s.mutex.Unlock()
+
+	regionQuads := s.SpatialPartition.GetRegion(min, max)
+	regionQuadsProtobuf := make([]*dagazpb.Quad, len(regionQuads))
+	for i := 0; i < len(regionQuads); i++ {
+		regionQuadsProtobuf[i] = regionQuads[i].ToProtobuf()
+	}
+	return regionQuadsProtobuf
+}
+
+func (s *State) debugInfo() SpatialDebugInfo {
+	s.mutex.Lock()
+	defer s.mutex.Unlock()
+
+	return s.SpatialPartition.GetDebugInfo()
 }
